@@ -307,8 +307,28 @@ fn main() {
     let mut total = 0usize;
     match mode.as_str() {
         "guards" => {
-            // every call of the alphabet alone: its guard sequence (kinds) and count
-            for c in &alpha[..nsingle] {
+            // every call of the alphabet alone - and one call of EVERY method the property lists as a single step, whether or not
+            // it is in the interleaving alphabet: its guard sequence (kinds) and count, nesting
+            let mut every: Vec<Value> = alpha[..nsingle].to_vec();
+            for q in ["read_all", "read_lines", "read", "exists", "is_dir", "is_file", "is_symlink", "is_symlink_dir", "is_symlink_file", "is_exec", "is_readonly",
+                      "mode", "owner", "uid", "gid", "readlink", "readlink_abs", "entry", "abs", "paths", "dirs", "files", "all_paths", "all_dirs", "all_files"] {
+                for p in ["/f", "/a", "/", "/missing", "rel/../a"] {
+                    every.push(call(q, p, ""));
+                }
+            }
+            every.push(call("cwd", "", ""));
+            every.push(call("root", "", ""));
+            every.push(call_ls("append_lines", "/f", &["x", "y"]));
+            every.push(call_ls("append_lines", "/new", &["x"]));
+            every.push(call_ls("write_lines", "/f", &["x", "", "y"]));
+            every.push(call_ls("append_line", "/new2", &["z"]));
+            every.push(call("symlink", "/l2", "a"));
+            every.push(call("set_cwd", "a/c", ""));
+            every.push(call("mkdir_p", "x/y/z", ""));
+            every.push(call("copy", "/a", "/a/c"));
+            every.push(call("move_p", "/a/c", "/"));
+            every.push(call("remove_all", "/", ""));
+            for c in &every {
                 pid += 1;
                 total += explore(&sh, &[vec![c.clone()]], &mut out, pid, &pr, 10);
             }
